@@ -377,6 +377,35 @@ def answer (line : String) : String :=
       | some n => s!"ok {calls} | {k} {n.mode} {n.rdev}"
       | none => s!"fail {calls}"
     | _, _, _, _, _, _, _ => "bad-op"
+  -- `errs <driver> <site>…` : exit class when exactly these steps fail
+  | "errs" :: d :: sites =>
+    let drv : Option Errs.Driver := match d with | "parfile" => some .parfile | "parblock" => some .parblock | _ => none
+    let site (t : String) : Option Errs.Site := match t with
+      | "walkerStat" => some .walkerStat | "walkerReaddir" => some .walkerReaddir | "walkerCanonicalize" => some .walkerCanonicalize
+      | "walkerReadlink" => some .walkerReadlink | "walkerMkdir" => some .walkerMkdir | "walkerNoClobber" => some .walkerNoClobber
+      | "walkerUnknownKind" => some .walkerUnknownKind | "openSrc" => some .openSrc | "fstatSrc" => some .fstatSrc
+      | "sameFileStat" => some .sameFileStat | "backupReaddir" => some .backupReaddir | "backupRename" => some .backupRename
+      | "createDst" => some .createDst | "truncateDst" => some .truncateDst | "cloneHard" => some .cloneHard
+      | "sparseStat" => some .sparseStat | "fiemapHard" => some .fiemapHard | "seek" => some .seek | "dataCopy" => some .dataCopy
+      | "finXattr" => some .finXattr | "finChown" => some .finChown | "finStat" => some .finStat | "finChmod" => some .finChmod
+      | "finUtimens" => some .finUtimens | "finFsync" => some .finFsync | "symlink" => some .symlink
+      | "specialProbeDest" => some .specialProbeDest | "specialStat" => some .specialStat | "specialUnlink" => some .specialUnlink
+      | "specialMknod" => some .specialMknod | "destProbe" => some .destProbe | _ => none
+    match drv, parseAll site sites with
+    | some drv, some ss => if Errs.exitNonZero drv ss then "ok nonzero" else "ok zero"
+    | _, _ => "bad-op"
+  -- `updates <bsize> | <s<n>|c<n>|e>…` : the accounting monitor on a recorded stream, and what ChannelUpdater would deliver
+  | "updates" :: b :: "|" :: toks =>
+    let upd (t : String) : Option Update :=
+      if t = "e" then some .error
+      else if t.startsWith "s" then (t.drop 1).toString.toNat?.map .size
+      else if t.startsWith "c" then (t.drop 1).toString.toNat?.map .copied
+      else none
+    match b.toNat?, parseAll upd toks with
+    | some b, some us =>
+      let d := if b = 0 then us else channelRun b 0 us
+      s!"ok prefix={Status.prefixOk us} size={sumSize us} copied={sumCopied us} error={hasError us} delivered_prefix={Status.prefixOk d} delivered_copied={sumCopied d} delivered_size={sumSize d}"
+    | _, _ => "bad-op"
   | "scen" :: rest => runScen rest
   -- `gimatch <hexline> <hexpath relative> <isdir>` : does this one pattern line match?
   | ["gimatch", l, p, d] =>
